@@ -11,8 +11,8 @@ CONSTANTS Gens,      \* subset of {1, 2}: which generation's hooks run
 
 C == [L |-> 10, DL |-> 20, ST |-> 20, DT |-> 30, bf1n |-> 1, bf1d |-> 10, bf2n |-> 1, bf2d |-> 5, A1 |-> 100, B1 |-> 30, A2 |-> 200]
 
-VARIABLES st, deviated
-vars == <<st, deviated>>
+VARIABLE st
+vars == <<st>>
 
 UBal == [uatom |-> Fund, ucmst |-> Fund, uharbor |-> Fund]
 Zero == [uatom |-> 0, ucmst |-> 0, uharbor |-> 0]
@@ -31,10 +31,10 @@ Key(s) == <<s.t, s.nf, s.fl.active, s.n1, s.n2, s.tm, s.esm,
 Out(a, args, pre, post) ==
   IF Emit THEN PrintT(<<"T", ToJson([a |-> a, args |-> args, pre |-> Key(pre), post |-> Key(post)])>>) ELSE TRUE
 
-Init == st = St0 /\ deviated = FALSE /\ Out("Init", InitArgs, St0, St0)
+Init == st = St0 /\ Out("Init", InitArgs, St0, St0)
 
-Step(a, args, post, dev) ==
-  /\ st' = post /\ deviated' = (deviated \/ dev)
+Step(a, args, post) ==
+  /\ st' = post
   /\ Out(a, args, st, post)
 
 (* bid amounts worth trying on auction a: equal, barely improving, just short of improving, clearly improving, far off *)
@@ -56,12 +56,12 @@ DoBid ==
       /\ LET denom == IF good THEN a.bidD ELSE a.lotD IN
          IF a.gen = 1 /\ a.kind = "surplus"
          THEN LET r == BidV1Surplus(st, C, u, a.id, amt, denom) IN
-              Step("BidV1Surplus", [u |-> u, id |-> a.id, amt |-> amt, denom |-> denom], r.st, FALSE)
+              Step("BidV1Surplus", [u |-> u, id |-> a.id, amt |-> amt, denom |-> denom], r.st)
          ELSE IF a.gen = 1
          THEN LET r == BidV1Debt(st, C, u, a.id, amt, denom, C.L, CMST) IN
-              Step("BidV1Debt", [u |-> u, id |-> a.id, amt |-> amt, denom |-> denom, exp |-> C.L, expDenom |-> CMST], r.st, FALSE)
+              Step("BidV1Debt", [u |-> u, id |-> a.id, amt |-> amt, denom |-> denom, exp |-> C.L, expDenom |-> CMST], r.st)
          ELSE LET r == BidV2(st, C, u, a.id, amt, denom) IN
-              Step("BidV2", [u |-> u, id |-> a.id, amt |-> amt, denom |-> denom], r.st, FALSE)
+              Step("BidV2", [u |-> u, id |-> a.id, amt |-> amt, denom |-> denom], r.st)
 
 (* attacker-chosen contents that name no auction / the wrong expected payment *)
 DoBadBid ==
@@ -69,24 +69,20 @@ DoBadBid ==
     \/ /\ 1 \in Gens /\ Flag = "debt" /\ st.n1 > 0
        /\ \E e \in {C.L - 1, C.L + 1} :
             LET r == BidV1Debt(st, C, u, st.n1, C.DL - 5, HARBOR, e, CMST) IN
-            Step("BidV1Debt", [u |-> u, id |-> st.n1, amt |-> C.DL - 5, denom |-> HARBOR, exp |-> e, expDenom |-> CMST], r.st, FALSE)
+            Step("BidV1Debt", [u |-> u, id |-> st.n1, amt |-> C.DL - 5, denom |-> HARBOR, exp |-> e, expDenom |-> CMST], r.st)
     \/ /\ 2 \in Gens
        /\ LET r == BidV2(st, C, u, st.n2 + 1, 7, HARBOR) IN
-          Step("BidV2", [u |-> u, id |-> st.n2 + 1, amt |-> 7, denom |-> HARBOR], r.st, FALSE)
+          Step("BidV2", [u |-> u, id |-> st.n2 + 1, amt |-> 7, denom |-> HARBOR], r.st)
 
-DoHookV1 == 1 \in Gens /\ Step("HookV1", [x |-> 0], HookV1(st, C), FALSE)
+DoHookV1 == 1 \in Gens /\ Step("HookV1", [x |-> 0], HookV1(st, C))
 
-ClosesDeviating(dt) ==          \* a generation-2 surplus close, or a debt close whose gov amount differs from the payment
-  \E i \in 1..Len(st.auc) : LET a == st.auc[i] IN
-     a.gen = 2 /\ st.t + dt > a.endT /\ a.nb > 0 /\ st.tm /\ (a.kind = "surplus" \/ (a.kind = "debt" /\ a.lot # a.pay))
-DoBlock == 2 \in Gens /\ st.t < MaxT /\ \E dt \in {C.A2 \div 2, C.A2 + 1} :
-             Step("Block", [dt |-> dt], Block(st, C, dt, "gov"), ClosesDeviating(dt))
-DoAdvance == 2 \notin Gens /\ st.t < MaxT /\ \E dt \in {C.B1 + 1, C.A1 + 1} : Step("Advance", [dt |-> dt], [st EXCEPT !.t = @ + dt], FALSE)
-DoGeneric == Generic /\ st.n2 = 0 /\ LET r == StartGeneric(st, C, 7, 12) IN Step("StartGeneric", [lot |-> 7, minBid |-> 12], r.st, FALSE)
-DoSurplusFund == Flag = "dist" /\ LET r == SurplusFund(st, C) IN Step("SurplusFund", [x |-> 0], r.st, FALSE)
-DoSeed == Flag = "dist" /\ st.nf < 60 /\ st.bal["ext"][CMST] < 10040 /\ Step("SeedFees", [x |-> 13], SeedFees(st, 13), FALSE)
-DoEsm == Esm /\ ~st.esm /\ Step("EsmOn", [x |-> 0], EsmOn(st), FALSE)
-DoMint == ~st.tm /\ Step("MintGenesis", [x |-> 0], MintGenesis(st).st, FALSE)
+DoBlock == 2 \in Gens /\ st.t < MaxT /\ \E dt \in {C.A2 \div 2, C.A2 + 1} : Step("Block", [dt |-> dt], Block(st, C, dt))
+DoAdvance == 2 \notin Gens /\ st.t < MaxT /\ \E dt \in {C.B1 + 1, C.A1 + 1} : Step("Advance", [dt |-> dt], [st EXCEPT !.t = @ + dt])
+DoGeneric == Generic /\ st.n2 = 0 /\ LET r == StartGeneric(st, C, 7, 12) IN Step("StartGeneric", [lot |-> 7, minBid |-> 12], r.st)
+DoSurplusFund == Flag = "dist" /\ LET r == SurplusFund(st, C) IN Step("SurplusFund", [x |-> 0], r.st)
+DoSeed == Flag = "dist" /\ st.nf < 60 /\ st.bal["ext"][CMST] < 10040 /\ Step("SeedFees", [x |-> 13], SeedFees(st, 13))
+DoEsm == Esm /\ ~st.esm /\ Step("EsmOn", [x |-> 0], EsmOn(st))
+DoMint == ~st.tm /\ Step("MintGenesis", [x |-> 0], MintGenesis(st).st)
 
 Next == DoBid \/ DoBadBid \/ DoHookV1 \/ DoBlock \/ DoAdvance \/ DoGeneric \/ DoMint \/ DoSurplusFund \/ DoSeed \/ DoEsm
 Spec == Init /\ [][Next]_vars
@@ -97,6 +93,6 @@ StateBound == st.n1 + st.n2 <= MaxAuc /\ st.t <= MaxT
 InvCustodyCovers == CustodyCovers(st)
 InvCustodyExact == CustodyExact(st)
 InvNetFeesNonNeg == st.nf >= 0
-InvCollectorBacked == ~deviated => CollectorBacked(st)
+InvCollectorBacked == CollectorBacked(st)
 InvOneAuction == Cardinality({i \in 1..Len(st.auc) : st.auc[i].kind # "generic"}) <= 1
 =============================================================================
